@@ -754,6 +754,29 @@ func runShared(c *Ctx) {
 				// element of a local array/slice value obtained from a call: reflect slices etc.
 				okk, why := c.localContainerOK(w)
 				c.R.Add("SHARED-W", key, fname, pos, okk, "writes through a slice obtained from elsewhere do not modify memory other calls can reach", why)
+			case owner == "" && root == "*ssa.MakeMap":
+				// an element (inner map, slice) of a map made in this function: local exactly when every element stored into
+				// that map was itself made here — an inner container taken over from elsewhere stays the other owner's
+				mm := localMapRoot(w.target)
+				okk, why := mm != nil, "local map not found"
+				if mm != nil {
+					n := 0
+					for _, ref := range *mm.Referrers() {
+						if mu, isMU := ref.(*ssa.MapUpdate); isMU && mu.Map == ssa.Value(mm) {
+							n++
+							switch mu.Value.Type().Underlying().(type) {
+							case *types.Map, *types.Slice, *types.Pointer:
+								if !p.FreshIn(mu.Value) {
+									okk, why = false, "the local map holds an element taken over from elsewhere ("+core.Path(mu.Value)+" at "+p.InstrPos(mu)+")"
+								}
+							}
+						}
+					}
+					if okk {
+						why = fmt.Sprintf("every element of the local map is made in this function (%d stores)", n)
+					}
+				}
+				c.R.Add("SHARED-W", key, fname, pos, okk, "writes through an element of a local map reach only memory made in this function", why)
 			default:
 				c.R.Undecided("SHARED-W", key, fname, pos, fmt.Sprintf("cannot classify the owner of this write (%s, owner %q, root %s)", w.kind, owner, root))
 			}
@@ -1189,6 +1212,45 @@ func runHash(c *Ctx) {
 			"the vertex hash code depends on every label field of the kind ("+strings.Join(want, ", ")+")",
 			ternary(len(missing) == 0, "all label fields flow into the hash", "not flowing into the hash: "+strings.Join(missing, ", ")))
 	}
+	// the function vertex: its identity is a value that is at least as fine as the wrapped function's reflect.Type (the
+	// Type itself or a pointer), never a rendering of it — Type.String() is not injective (two local struct types with
+	// one name, like-named packages), and two converters that print alike would collapse into one vertex
+	if h := p.Method(p.Arg, k.Func, "Hashcode"); h != nil {
+		c.R.Func(core.FuncName(h))
+		bad, n := "", 0
+		for _, r := range core.Returns(h) {
+			for _, o := range core.ReturnOperand(r, 0) {
+				n++
+				v := o
+				if mi, ok := v.(*ssa.MakeInterface); ok {
+					v = mi.X
+				}
+				switch x := v.(type) {
+				case *ssa.Call:
+					cn := core.CalleeName(x.Common())
+					if x.Common().IsInvoke() {
+						cn = x.Common().Method.Name()
+					}
+					switch {
+					case cn == "(reflect.Value).Type":
+					case cn == "(reflect.Value).Pointer":
+					default:
+						bad = "identity is the result of " + cn
+					}
+				default:
+					if _, isPtr := v.Type().Underlying().(*types.Pointer); !isPtr {
+						if b, isB := v.Type().Underlying().(*types.Basic); isB && b.Info()&types.IsString != 0 {
+							bad = "identity is a string rendering: " + core.Path(v)
+						} else if _, isI := v.Type().Underlying().(*types.Interface); !isI {
+							bad = "identity is " + core.Path(v)
+						}
+					}
+				}
+			}
+		}
+		c.R.Add("HASH", k.Func+"|identity-not-a-rendering", core.FuncName(h), p.Pos(h.Pos()), bad == "" && n > 0,
+			"a function vertex is identified by the wrapped function's reflect.Type (or a pointer), not by a printed form of it", ternary(bad == "", "reflect.Type / pointer identity", bad))
+	}
 	// distinct kinds use distinct format strings
 	fm := map[string]string{}
 	for _, kind := range []string{k.Value, k.Arg, k.Out} {
@@ -1324,4 +1386,44 @@ func (c *Ctx) capturedAccumulator(target ssa.Value) (bool, string) {
 		}
 	}
 	return true, "local accumulator of the enclosing function, grown by a helper closure that does not outlive it"
+}
+
+// localMapRoot peels lookups, element addresses and loads down to the map made in this function that the written
+// memory hangs off.
+func localMapRoot(v ssa.Value) *ssa.MakeMap {
+	for i := 0; i < 20 && v != nil; i++ {
+		switch x := v.(type) {
+		case *ssa.MakeMap:
+			return x
+		case *ssa.Lookup:
+			v = x.X
+		case *ssa.IndexAddr:
+			v = x.X
+		case *ssa.Slice:
+			v = x.X
+		case *ssa.Extract:
+			if l, ok := x.Tuple.(*ssa.Lookup); ok {
+				v = l.X
+			} else if n, ok := x.Tuple.(*ssa.Next); ok {
+				if r, ok := n.Iter.(*ssa.Range); ok {
+					v = r.X
+				} else {
+					return nil
+				}
+			} else {
+				return nil
+			}
+		case *ssa.UnOp:
+			if al, ok := x.X.(*ssa.Alloc); ok {
+				v = core.SingleStore(al)
+			} else {
+				v = x.X
+			}
+		case *ssa.ChangeType:
+			v = x.X
+		default:
+			return nil
+		}
+	}
+	return nil
 }
